@@ -131,6 +131,9 @@ func Packet(r *fw.Rand, c PacketClasses) *ref.Packet {
 		n := []int{1, r.Range(2, 6)}[c.Ext-6]
 		if c.Ext == 7 && r.Chance(1, 6) {
 			n = r.Range(7, 16) // many elements
+			if r.Chance(1, 6) {
+				n = r.Pick(17, 31, 32, 33, 64, 65, 100, 128, 200, 255) // very many: any fixed-size table inside overflows
+			}
 		}
 		for _, id := range distinctIDs(r, n, 1, 255) {
 			p.Elems = append(p.Elems, ref.Elem{ID: id, Val: Value(r, twoByteLen(r))})
